@@ -32,7 +32,7 @@
     does not transcribe, the function returns [OutOfFuel] (written
     [unmodelled]); the correspondence run counts such an answer as "no
     prediction" (it is reported in the evidence), so it can never stand in for
-    a real outcome.  The file follows /repo as of commit 8a6fb5f (where/reject/
+    a real outcome.  The file follows /repo as of commit 6836c2c (where/reject/
     find/has use Liquid equality and truthiness, compact treats a missing
     property as nil, map answers nil for a missing property).
 
@@ -1240,13 +1240,26 @@ Definition apply_filter (async : bool) (c : ctx) (f : fcall) (left : val) : res 
   | FFirst, [] =>
       match left with
       | VStr _ => Ok VNil
-      | VDict [] => Ok VNil
-      | VDict ((k, v) :: _) => Ok (VList true [VStr k; v])
-      | _ => match py_getitem false left (VInt 0) with
-             | Ok v => Ok v
-             | PyExc TypeError | PyExc KeyError | PyExc IndexError => Ok VNil
-             | r => r
-             end
+      | _ =>
+          if is_mapping left then
+            (* list(islice(obj.items(), 1))[0]: the first (key, value) pair the Mapping
+               itself publishes (d21fa41: any Mapping, not only dict); none -> nil *)
+            match left with
+            | VDict ((k, v) :: _) => Ok (VList true [VStr k; v])
+            | VObj h items _ _ _ =>
+                if o_loop h then unmodelled
+                else match items with
+                     | (k, v) :: _ => Ok (VList true [VStr k; v])
+                     | [] => Ok VNil
+                     end
+            | _ => Ok VNil                       (* {} and Undefined *)
+            end
+          else
+            match py_getitem false left (VInt 0) with
+            | Ok v => Ok v
+            | PyExc TypeError | PyExc KeyError | PyExc IndexError => Ok VNil
+            | r => r
+            end
       end
   | FLast, [] =>
       match left with
